@@ -94,6 +94,18 @@ theorem sum_simplify_shared_base {pop : Option Var} {c rs : List Var} (h : ¬ (c
     sumSimplify (.prob pop c []) rs = .sum (.prob pop c []) rs :=
   sumSimplify_dup (dupBase_of_not_nodup h)
 
+/-- why positivity does not discharge `DenNZ` on the widened class: the multi-world leaf `P(Y @ +X, +Y @ -X)` — "Y under x* is
+y and Y under x is y*" — denotes 0 at every valuation with x* = x and y* ≠ y, in EVERY family satisfying the probability
+laws (a variable takes one value per world, `pr_conflict`), positive or not.  As a denominator it violates `DenNZ`. -/
+theorem mw_leaf_vanishes (hF : ProbFamily env) (σ σ' : Val) (hx : σ' 0 = σ 0) (hy : σ 1 ≠ σ' 1) :
+    den env σ' (.prob none [{ name := 1, ivs := [⟨0, true⟩] }, { name := 1, star := some true, ivs := [⟨0, false⟩] }] []) σ = 0 := by
+  have hc : Atom.conflicts (Var.atom σ σ' { name := 1, ivs := [⟨0, true⟩] })
+      (Var.atom σ σ' { name := 1, star := some true, ivs := [⟨0, false⟩] }) = true := by
+    simp [Atom.conflicts, Var.atom, Var.value, Iv.eval, hx, hy]
+  simp only [den, List.append_nil, List.map_cons, List.map_nil]
+  rw [hF.pr_conflict _ _ _ _ hc]
+  simp
+
 section examples
 open Var
 
